@@ -261,6 +261,29 @@ def run(repo, rep):
     rep.run_borrowed(c10, {"C10-d": "C06-m"}, repo)
     rep.run_borrowed(c15, {"C15-e": "C06-d"}, repo, only_sites=("register_command_stream_util", "register_command_stream_generator", "architecture_features"))
     rep.run_borrowed(c04, {"C04-a": "C06-l"}, repo)
+    # ACC_FORMAT / AB_START follow the accumulator type function [shared with C15-c]
+    rep.run_borrowed(c15, {"C15-c": "C06-m"}, repo, only_sites=("_acc_type",))
+    # a flag that decides a register bit in one call and the emission of a register afterwards is fully decided before its first use
+    from .shared import flag_consistency_lint
+
+    rep.clause("C06-n", "a flag that selects a register bit in one call and the emission of a register afterwards is fully decided before its first use; on Ethos-U65 the source and the destination of a DMA are checked for legality independently")
+    if flag_consistency_lint(repo, rep, "C06-n", ["register_command_stream_generator", "register_command_stream_util", "high_level_command_to_npu_op", "api"]) < 2:
+        raise AnalysisError("flag consistency: no multi-definition flags found in the command stream generator")
+    # DMA legality on Ethos-U65: the source and the destination are checked independently (both may be internal)
+    cd_ = repo.mod("register_command_stream_util").func("check_dma_op")
+    tests = [i_ for i_ in ast.walk(cd_) if isinstance(i_, ast.If) and "BASE_PTR_INDEX_MEM2MEM" in str(norm(i_.test))]
+    srcs = [i_ for i_ in tests if "dma_op.src.region" in str(norm(i_.test))]
+    dsts = [i_ for i_ in tests if "dma_op.dest.region" in str(norm(i_.test))]
+    if len(srcs) != 1 or len(dsts) != 1:
+        raise AnalysisError("check_dma_op: internal-region tests of source and destination not found")
+    nested = any(x is dsts[0] for b in srcs[0].orelse + srcs[0].body for x in ast.walk(b)) or any(x is srcs[0] for b in dsts[0].orelse + dsts[0].body for x in ast.walk(b))
+    rep.check(not nested, "C06-n", "ethosu/vela/register_command_stream_util.py:check_dma_op", "source and destination of an internal-to-internal DMA are checked independently",
+              "the destination test is chained to the source test (elif / nested): with both ends in the internal region the destination alignment and the length multiple are never checked "
+              "and misaligned DMA0_DST / DMA0_LEN registers are emitted")
+    for side, ifs in (("src", srcs), ("dest", dsts)):
+        body_calls = [str(norm(c_)) for b in ifs[0].body for c_ in ast.walk(b) if isinstance(c_, ast.Call)]
+        rep.check(any(f"check_alignment(dma_op.{side}.address, 16)" == t for t in body_calls), "C06-n", "ethosu/vela/register_command_stream_util.py:check_dma_op",
+                  f"an internal {side} address is checked for 16-byte alignment", str(body_calls))
     # an explicit rescale carried by the operation wins over everything else in the add/sub scaling chain
     ge_ = gen.func("generate_scaling_for_elementwise")
     from ..cfg import cfg_of as _cfg6
